@@ -21,9 +21,38 @@ func (g *G) number() X {
 }
 
 func (g *G) str() X {
-	v := rapid.SampledFrom([]string{"x", "abc", "", "it's", "a b", "%x%", "select", "1", "é", "--c", "/*", "k", "{\"a\":1}"}).Draw(g.T, "str")
+	v := rapid.SampledFrom([]string{"x", "abc", "", "it's", "a b", "%x%", "select", "1", "é", "--c", "/*", "k", "{\"a\":1}",
+		"line1\nline2", "tab\there", "back\\slash", "cr\rlf\n", "q\"uote", "Mixed Case", "NULL"}).Draw(g.T, "str")
 	g.Names.Strings[v] = true
-	return X{sym("'" + strings.ReplaceAll(v, "'", "''") + "'"), lit(v, "string"), PPrimary}
+	var b strings.Builder
+	b.WriteByte('\'')
+	raw := g.chance(30, "rawnewline")
+	for _, r := range v {
+		switch r {
+		case '\'':
+			b.WriteString("''")
+		case '\\':
+			b.WriteString(`\\`)
+		case '\n':
+			if raw {
+				b.WriteByte('\n')
+			} else {
+				b.WriteString(`\n`)
+			}
+		case '\r':
+			b.WriteString(`\r`)
+		case '\t':
+			if raw {
+				b.WriteByte('\t')
+			} else {
+				b.WriteString(`\t`)
+			}
+		default:
+			b.WriteRune(r)
+		}
+	}
+	b.WriteByte('\'')
+	return X{sym(b.String()), lit(v, "string"), PPrimary}
 }
 
 func (g *G) boolLit() X {
